@@ -21,6 +21,9 @@ import Dos.Proofs.IOImportProofs
 import Dos.Proofs.IOPackAllOProofs
 import Dos.Proofs.ConcProofs
 import Dos.Proofs.BackupProofs
+import Dos.Proofs.BatchProofs
+import Dos.Proofs.ImportCacheProofs
+import Dos.Proofs.MultiBulkProofs
 
 namespace Dos.Props
 open Dos Dos.IO Dos.Conc Dos.Backup
@@ -252,6 +255,30 @@ theorem C10_modes {t : Tab} (wf : t.WF) {tg : Nat} (htg : 0 < tg) {ops : List Op
     have inv' := inv_step wf inv hs
     refine ⟨by simpa [specHas] using hh, fun hk => getc_of_has wf inv' ?_⟩
     rw [hh]; simpa [specHas] using hk
+
+/-! ## C16: batch sizes and lookup strategies cannot matter -/
+
+/-- on every reachable state, for every batch size and scan threshold, the batched computations of `pack_all_loose`,
+    `clean_storage` and `delete_objects` are the Level-B operations (whose effect on the key set is `has_step`) -/
+theorem C16_maintenance_batching {t : Tab} (wf : t.WF) {tg : Nat} (htg : 0 < tg) {ops : List Op} {s : St} (h : Reach t tg ops s)
+    (inMax scanMax : Nat) (hin : 0 < inMax) :
+    Batch.packTargets s inMax scanMax = toPack s ∧ Batch.cleanBatched s inMax scanMax = clean s ∧
+    (∀ ks, (Batch.deleteBatched s ks inMax).1 = (delete s ks).1 ∧
+        (∀ k, k ∈ (Batch.deleteBatched s ks inMax).2 ↔ k ∈ (delete s ks).2) ∧ (Batch.deleteBatched s ks inMax).2.Nodup) := by
+  have inv := reach_inv wf htg h
+  exact ⟨Batch.packTargets_eq inv inMax scanMax hin, Batch.cleanBatched_eq inv inMax scanMax hin,
+    fun ks => ⟨(Batch.deleteBatched_eq inv ks inMax hin).1, (Batch.deleteBatched_eq inv ks inMax hin).2, Batch.deleteBatched_nodup s ks inMax⟩⟩
+
+/-- importing: whatever the memory budget and the order in which the source hands the objects over, each is written in
+    exactly one direct-to-pack call, and a batch held in memory never exceeds the budget -/
+theorem C14_C18_import_batching (sz : Nat → Nat) (budget : Nat) (stream : List Nat) :
+    (ImportCache.importCalls sz budget stream).flatten.Perm stream ∧
+    (∀ call ∈ ImportCache.importCalls sz budget stream, call ≠ [] ∧
+        ((∃ c, call = [c] ∧ sz c > budget) ∨ (ImportCache.total sz call ≤ budget ∧ ∀ c ∈ call, sz c ≤ budget))) :=
+  ⟨ImportCache.importCalls_perm sz budget stream,
+   fun call hc => ⟨ImportCache.importCalls_nonempty sz budget stream call hc, ImportCache.importCalls_bounded sz budget stream call hc⟩⟩
+
+example : ImportCache.importCalls (fun c => 10 * c) 45 [1, 2, 9, 3, 0, 4] = [[9], [1, 2], [3, 0], [4]] := by decide
 
 /-! ## C04 / C15 on reachable containers: every schedule that respects the packer discipline (which the library's own
 packer programs do under every interleaving: `packAll_disciplined`, `clean_disciplined`) -/
